@@ -3,33 +3,33 @@
 // run: ./check C19 --replay replays/C19/tensor.c19_oob_d4.rs
 /// Test generated for harness `tensor::c19_oob_d4` 
 ///
-/// Check for `assertion`: "assertion failed: idx[i] < self.dims[i]"
+/// Check for `assertion`: "VERIF-REACHED: out-of-range index accepted"
 
 #[test]
-fn kani_concrete_playback_c19_oob_d4_3933279859714972108() {
+fn kani_concrete_playback_c19_oob_d4_11231012781980395610() {
     let concrete_vals: Vec<Vec<u8>> = vec![
+        // 3ul
+        vec![3, 0, 0, 0, 0, 0, 0, 0],
+        // 3ul
+        vec![3, 0, 0, 0, 0, 0, 0, 0],
+        // 1ul
+        vec![1, 0, 0, 0, 0, 0, 0, 0],
+        // 3ul
+        vec![3, 0, 0, 0, 0, 0, 0, 0],
         // 2ul
         vec![2, 0, 0, 0, 0, 0, 0, 0],
-        // 2ul
-        vec![2, 0, 0, 0, 0, 0, 0, 0],
-        // 2ul
-        vec![2, 0, 0, 0, 0, 0, 0, 0],
-        // 2ul
-        vec![2, 0, 0, 0, 0, 0, 0, 0],
-        // 0ul
-        vec![0, 0, 0, 0, 0, 0, 0, 0],
-        // 0ul
-        vec![0, 0, 0, 0, 0, 0, 0, 0],
         // 1ul
         vec![1, 0, 0, 0, 0, 0, 0, 0],
         // 0ul
         vec![0, 0, 0, 0, 0, 0, 0, 0],
+        // 0ul
+        vec![0, 0, 0, 0, 0, 0, 0, 0],
         // 2ul
         vec![2, 0, 0, 0, 0, 0, 0, 0],
         // 2ul
         vec![2, 0, 0, 0, 0, 0, 0, 0],
-        // 0
-        vec![0],
+        // 1
+        vec![1],
     ];
     kani::concrete_playback_run(concrete_vals, c19_oob_d4);
 }
